@@ -525,6 +525,41 @@ def check_typed_values(chk, rng, quick, tmp, esc_model):
                         chk.fail(f"C20:equivalence:undetected-perturbation:xs:{tname}:{key[1].split('-')[0]}",
                                  f"two {fmt} files differing only in one xs:{tname} value ({key[1]}: {base[key]!r} vs "
                                  f"{alt!r}) compare as equal: steps {statuses}", rp)
+    # Blob contents (bytes outside the xsd value types) and the special float values
+    from basyx.aas import model
+
+    def blob_store(b1, b2):
+        return model.DictObjectStore([model.Submodel("urn:typed:blob", [
+            model.Blob("b", "application/octet-stream", b1),
+            model.Entity("e", model.EntityType.CO_MANAGED_ENTITY, [model.Blob("b", "application/octet-stream", b2)])])])
+    for fmt, fn in (("json", "json.check_json_files_equivalence"), ("xml", "xml.check_xml_files_equivalence")):
+        p0 = os.path.join(tmp, f"blob0.{fmt}")
+        write_store(blob_store(b"\x01\x02\x03", b"\x00\xff"), fmt, p0)
+        for k, (b1, b2) in enumerate([(b"\x01\x02\x02", b"\x00\xff"), (b"\x01\x02\x03", b"\x00\xfe"),
+                                      (b"\x01\x02\x03\x00", b"\x00\xff"), (b"\x01\x02\x03", b"\x00")]):
+            p1 = os.path.join(tmp, f"blob1.{fmt}")
+            write_store(blob_store(b1, b2), fmt, p1)
+            raised, statuses, overall = call(two[fn], p0, p1)
+            tried += 1
+            chk.seen(("blob-mut", k, fmt), nontrivial=True)
+            chk.count("perturbation=blob-bytes")
+            if raised is not None:
+                report_raise(chk, fn, raised, esc_model, {"input_kind": "blob perturbation"})
+            elif overall == 0:
+                undetected += 1
+                chk.fail("C20:equivalence:undetected-perturbation:Blob.value", f"two {fmt} files differing in one byte of a "
+                         f"Blob compare as equal: steps {statuses}", {"blob": [b1.hex(), b2.hex()], "format": fmt})
+        ps = os.path.join(tmp, f"special.{fmt}")
+        specials = [("nan", float("nan")), ("inf", float("inf")), ("ninf", float("-inf")), ("nzero", -0.0)]
+        write_store(model.DictObjectStore([model.Submodel("urn:typed:special", [
+            model.Property(n, model.datatypes.Double, v) for n, v in specials])]), fmt, ps)
+        raised, statuses, overall = call(two[fn], ps, ps)
+        chk.seen(("special-self", fmt), nontrivial=True)
+        if raised is not None:
+            report_raise(chk, fn, raised, esc_model, {"input_kind": "special float values twice"})
+        elif overall != 0:
+            chk.fail("C20:equivalence:equal-data-rejected:NaN", f"a {fmt} file holding xs:double NaN / INF / -INF / -0 compared "
+                     f"with itself: steps {statuses}", {"special": [n for n, _ in specials], "format": fmt})
     chk.cov["typed_perturbations_tried"] = tried
     chk.cov["typed_perturbations_undetected"] = undetected
     chk.cov["typed_perturbed_files_rejected_by_reader"] = rejected
@@ -594,6 +629,7 @@ def run(chk):
     tmp = tempfile.mkdtemp(prefix="c20-", dir=os.path.join(common.VERIF, "work"))
     try:
         check_files(chk, rng, quick, tmp, esc_model, compared_model)
+        check_typed_values(chk, rng, quick, tmp, esc_model)
     finally:
         shutil.rmtree(tmp, ignore_errors=True)
     chk.trusted = [
@@ -612,7 +648,11 @@ def run(chk):
                       rule="state manager: seeded operation sequences (<= 12 ops); check functions: arbitrary bytes, "
                            "well-formed non-AAS documents, damaged SDK-written JSON/XML/AASX (6 damage operators), "
                            "crafted AASX packages, SDK-written files of 5 example stores in JSON/XML/AASX, shuffled "
-                           "copies, and single-leaf mutations of the full example as second file; non-trivial = a "
+                           "copies, single-leaf mutations of the full example, and minimal perturbations (next float up/down, "
+                           "one more decimal digit, +-1, +1 microsecond / day, one character changed/added incl. a "
+                           "trailing space, bool flipped, one byte changed/added) of one typed value per xsd type x "
+                           "carrier (Property at 6 nesting positions, Range min/max, Qualifier, Extension, Blob) in JSON "
+                           "and XML as second file; non-trivial = a "
                            "manager sequence of >= 3 ops or a function call that produced a report")
 
 
